@@ -247,3 +247,58 @@ def nan_source_gives_inf(c):
     n = cfg_ints(c)[0]
     i = ints(c['impl'])
     return x != x and len(i) == 1
+
+
+@pred
+def always(c):
+    return True
+
+
+@pred
+def posit_operand_is_nar(c):
+    n = cfg_ints(c)[0]
+    a = ints(c['args'])
+    return len(a) >= 1 and a[-1] == 1 << (n - 1)
+
+
+@pred
+def impl_is_zero_or_nar(c):
+    n = cfg_ints(c)[0]
+    i = ints(c['impl'])
+    return len(i) == 1 and i[0] in (0, 1 << (n - 1))
+
+
+@pred
+def off_by_one_encoding(c):
+    i, m = ints(c['impl']), ints(c['model'])
+    if len(i) != 1 or len(m) != 1:
+        return False
+    if c['opname'] == 'to_int':
+        w = ints(c['args'])[0]
+        return (i[0] - m[0]) % (1 << w) in (1, (1 << w) - 1)
+    return abs(i[0] - m[0]) == 1
+
+
+@pred
+def fast_posit_int_source(c):
+    """fast posit<16,1>/<16,2>/<32,2> integer_assign: truncates instead of rounding (off by one encoding), or
+    the source does not fit the 32-bit (32_2) / signed 64-bit path"""
+    i, m = ints(c['impl']), ints(c['model'])
+    if len(i) != 1 or len(m) != 1:
+        return False
+    z = abs(_int_src(c)) if c['opname'] == 'from_int' else ints(c['args'])[1]
+    return abs(i[0] - m[0]) == 1 or z >= 1 << 31
+
+
+@pred
+def int_source_beyond_int32(c):
+    z = abs(_int_src(c)) if c['opname'] == 'from_int' else ints(c['args'])[1]
+    return z >= 1 << 31
+
+
+@pred
+def posit_sqrt_via_double(c):
+    """result agrees with the correctly rounded root except in the bits a double cannot hold"""
+    n = cfg_ints(c)[0]
+    i, m = ints(c['impl']), ints(c['model'])
+    return len(i) == 1 and len(m) == 1 and abs(i[0] - m[0]) < (1 << max(1, n - 50))
